@@ -16,10 +16,11 @@ Record cfg := mkCfg {
   f24 : bool;   (* add_import refuses an import whose local name another import of the block binds *)
   f28 : bool;   (* an emptied block that did not start at column 1 prints "\n" *)
   f35 : bool;   (* block selection sorts by key only (no TypeError on equal keys) *)
-  f37 : bool    (* ImportAlreadyExistsError is caught in the add-missing loop too *)
+  f37 : bool;   (* ImportAlreadyExistsError is caught in the add-missing loop too *)
+  f38 : bool    (* a last prologue line without newline is terminated before the new import block *)
 }.
-Definition repaired : cfg := mkCfg true true true true true true true true.
-Definition unchanged : cfg := mkCfg false false false false false false false false.
+Definition repaired : cfg := mkCfg true true true true true true true true true.
+Definition unchanged : cfg := mkCfg false false false false false false false false false.
 
 (* where the code raises: ConflictingImportsError (ImportSet.pretty_print), LineNumberAmbiguousError,
    Exception("Multiple imports to remove"), TypeError (tuple comparison falls through to the block objects),
@@ -179,7 +180,9 @@ Definition select_block (c : cfg) (bs : list block) (imp : import) (L : option n
               if idx == 0: self.blocks[0:0] = blocks
               else: self.blocks[:1] = [Transformation(concatenate(statements[:idx]))] + blocks + [Transformation(concatenate(statements[idx:]))]
               break
-      else: self.blocks[1:1] = blocks                                                                 *)
+      else: [F38: text = self.blocks[0].input.text.joined
+                  if text and not text.endswith("\n"): blocks = [SourceToSourceTransformation("")] + blocks]
+            self.blocks[1:1] = blocks                                                                 *)
 Fixpoint first_nonprologue (c : cfg) (ss : list stmt) (seen_string : bool) : option nat :=
   match ss with
   | [] => None
@@ -198,6 +201,10 @@ Fixpoint first_nonprologue (c : cfg) (ss : list stmt) (seen_string : bool) : opt
 Definition fresh_id (bs : list block) : nat := S (list_max (map ib_id (iblocks bs))).
 Definition new_ib (id : nat) : iblock := mkIB id 1 true 2 true [].
 Definition sep_block : block := Other [mkStmt KBlank [c_nl]] (Some [c_nl]).
+(*  SourceToSourceTransformation("")  : input "\n", printed as is  *)
+Definition nl_block : block := Other [mkStmt KBlank [c_nl]] None.
+Definition unterminated (ss : list stmt) : bool :=
+  negb (is_nil (stmts_text ss)) && negb (ends_nl (stmts_text ss)).
 
 Definition insert_new (c : cfg) (bs : list block) : res (list block * iblock) :=
   let nb := new_ib (fresh_id bs) in
@@ -206,7 +213,8 @@ Definition insert_new (c : cfg) (bs : list block) : res (list block * iblock) :=
   | Imps _ :: _ => Ok (Imps nb :: sep_block :: bs, nb)
   | Other ss o :: rest =>
       match first_nonprologue c ss false with
-      | None => Ok (Other ss o :: Imps nb :: sep_block :: rest, nb)
+      | None => Ok (Other ss o :: (if f38 c && unterminated ss then [nl_block] else [])
+                               ++ Imps nb :: sep_block :: rest, nb)
       | Some 0 => Ok (Imps nb :: sep_block :: bs, nb)
       | Some idx => Ok (Other (firstn idx ss) None :: Imps nb :: sep_block :: Other (skipn idx ss) None :: rest, nb)
       end
@@ -223,23 +231,26 @@ Inductive outcome :=
 | Exists
 | Refused.
 
-Definition add_import (c : cfg) (bs : list block) (imp : import) (L : option nat) : res (list block * outcome) :=
+(* the first three lines of add_import: the chosen block, the block list (changed when a block was created),
+   whether the block is new *)
+Definition choose_block (c : cfg) (bs : list block) (imp : import) (L : option nat)
+  : res (list block * iblock * bool) :=
   match select_block c bs imp L with
   | Err e => Err e
-  | Ok sel =>
-      match (match sel with
-             | Some b => Ok (bs, b, false)
-             | None => match insert_new c bs with
-                       | Err e => Err e
-                       | Ok (bs', nb) => Ok (bs', nb, true)
-                       end
-             end) with
-      | Err e => Err e
-      | Ok (bs1, b, isnew) =>
-          if imp_in imp (ib_imps b) then Ok (bs1, Exists)
-          else if f24 c && negb (is_star imp) && negb (is_nil (by_as (ib_imps b) (i_as imp))) then Ok (bs1, Refused)
-          else Ok (upd bs1 (ib_id b) (fun b' => set_imps b' (with_one (ib_imps b') imp)), Added (ib_id b) isnew)
-      end
+  | Ok (Some b) => Ok (bs, b, false)
+  | Ok None => match insert_new c bs with
+               | Err e => Err e
+               | Ok (bs', nb) => Ok (bs', nb, true)
+               end
+  end.
+
+Definition add_import (c : cfg) (bs : list block) (imp : import) (L : option nat) : res (list block * outcome) :=
+  match choose_block c bs imp L with
+  | Err e => Err e
+  | Ok (bs1, b, isnew) =>
+      if imp_in imp (ib_imps b) then Ok (bs1, Exists)
+      else if f24 c && negb (is_star imp) && negb (is_nil (by_as (ib_imps b) (i_as imp))) then Ok (bs1, Refused)
+      else Ok (upd bs1 (ib_id b) (fun b' => set_imps b' (with_one (ib_imps b') imp)), Added (ib_id b) isnew)
   end.
 
 (* ---------------------------------------------------------------------------------------------- *)
